@@ -84,6 +84,11 @@ type lox struct {
 
 	_qla    int
 	_qlasym any
+
+	// _recovering is true from the moment an error is recovered until a token
+	// is shifted. An error detected in the meantime makes no progress unless
+	// the offending token is dropped.
+	_recovering bool
 }
 
 func (p *jsoncParser) parse(lex _Lexer) bool {
@@ -107,6 +112,9 @@ func (p *jsoncParser) parse(lex _Lexer) bool {
 		if action == accept {
 			break
 		} else if action >= 0 { // shift
+			if p._la != ERROR {
+				p._recovering = false
+			}
 			p._stack.Push(_item{
 				State: action,
 				Sym:   p._lasym,
@@ -169,6 +177,18 @@ func (p *jsoncParser) _recover() bool {
 		p._readToken()
 	}
 
+	if p._recovering {
+		// No token has been shifted since the last recovery: drop the offending
+		// token, otherwise the same recovery would be attempted forever.
+		if p._la == EOF {
+			return false
+		}
+		p._readToken()
+		for p._la == ERROR {
+			p._readToken()
+		}
+	}
+
 	for {
 		save := p._stack
 
@@ -199,6 +219,7 @@ func (p *jsoncParser) _recover() bool {
 				p._qlasym = p._lasym
 				p._la = ERROR
 				p._lasym = errSym
+				p._recovering = true
 				return true
 			}
 
